@@ -13,6 +13,7 @@ import (
 // Event is a side-effecting construct of a function: a call, go, defer, store
 // to a field/element/global, map update, delete, close or channel send.
 type Event struct {
+	Pure bool   // call of a function without visible side effects (not tracked by "*")
 	Kind string // call, go, defer, store, mapset, delete, close, send
 	Name string // resolved callee / canonical l-value
 	Args string // canonical arguments / stored value
@@ -48,6 +49,9 @@ func (f *FuncFacts) Events() []*Event {
 			case *ssa.Store:
 				switch x.Addr.(type) {
 				case *ssa.FieldAddr, *ssa.IndexAddr, *ssa.Global:
+					if localAddr(x.Addr) {
+						break
+					}
 					name := f.c.term(x.Addr)
 					name = strings.TrimPrefix(name, "&")
 					e = &Event{Kind: "store", Name: name, Args: f.c.term(x.Val)}
@@ -92,7 +96,15 @@ func (f *FuncFacts) callEvent(kind string, cc *ssa.CallCommon) *Event {
 			}
 		}
 	}
-	return &Event{Kind: kind, Name: name, Args: strings.Join(args, ",")}
+	ev := &Event{Kind: kind, Name: name, Args: strings.Join(args, ",")}
+	if kind == "call" {
+		if callee := cc.StaticCallee(); callee != nil {
+			ev.Pure = isPure(callee) || isNoiseCallee(callee.String())
+		} else if cc.IsInvoke() && isNoiseCallee("("+cc.Value.Type().String()+").") {
+			ev.Pure = true
+		}
+	}
+	return ev
 }
 
 // evDominates: event a is executed before b on every path reaching b.
